@@ -19,9 +19,14 @@
   Props/C04/Classes2.lean MarkovProduct/Scatter (`mp_subs_sem` under `noSeqClash`, `mp_subs_seq_witness`, `scatter_rename_sem`),
                           Constant (`const_subs_sub/sup/nodup`), Delta (`delta_subs_ground`, `delta_subs_rename`,
                           `logIndicatorPlus_spec`), Independent (`indep_subs_rename`, `indep_subs_value`).
+  Props/C04/Classes3.lean the executable models of Delta.eager_subs (`delta_eager_subs_sem`: any order of kept / renamed /
+                          ground terms, swaps and collisions included; `…_exact`, `…_kept_only`), Independent.eager_subs
+                          (`indep_eager_subs_sem`) and the MarkovProduct/Scatter decision on names (`mpDecide_none_iff`,
+                          `mpDecide_some_spec`) mean the simultaneous substitution / HEAD's guard.
 -/
 import FunsorVerif.Props.C04.NT
 import FunsorVerif.Props.C04.Subst
 import FunsorVerif.Props.C04.Classes
 import FunsorVerif.Props.C04.Gauss
 import FunsorVerif.Props.C04.Classes2
+import FunsorVerif.Props.C04.Classes3
